@@ -478,9 +478,10 @@ func TestVerif_C30(t *testing.T) {
 		os.RemoveAll(srv.dir)
 	}()
 
-	keys := []string{"a", "a,b", `q"q`, "é", " lead", "l1\nl2"}
+	// "#h": a key that a CSV reader configured for comment lines would swallow whole
+	keys := []string{"a", "a,b", `q"q`, "é", " lead", "l1\nl2", "#h"}
 	if thorough {
-		keys = append(keys, "c\r\nd", "#h", "7", "trail ", `""`, "x\ty")
+		keys = append(keys, "c\r\nd", "7", "trail ", `""`, "x\ty", ";s", "-1", "=f")
 	}
 	sw := uint64(pilosa.ShardWidth)
 	idCols := [3]string{"0", strconv.FormatUint(sw, 10), strconv.FormatUint(4*sw-1, 10)}
